@@ -126,6 +126,20 @@ class Checker:
     def unknown(self, message):
         self.current.unknowns.append(message)
 
+    # exceptions that are never part of the assembler's own error discipline: a path of the real code that ends in one
+    # (on inputs the rule built from well-formed objects) is the program crashing, not the analysis failing
+    CRASHES = ("AttributeError", "TypeError", "KeyError", "IndexError", "NameError", "UnboundLocalError", "RecursionError", "ZeroDivisionError")
+
+    def incomplete(self, where, what, paths):
+        """an abstract run of real code did not end in exactly one normal return: internal exception -> violation, else unknown"""
+        for p in paths:
+            exc = getattr(p, "value", None)
+            if getattr(p, "kind", None) == "raise" and getattr(exc, "name", None) in self.CRASHES:
+                self.violation(where, f"{what}: the code dies with {exc.name}{tuple(str(a)[:80] for a in (getattr(exc, 'args', None) or ()))} "
+                                      "(an internal exception, not a diagnostic: the 'unexpected internal compiler error' path)", construct=f"{what}: internal exception")
+                return
+        raise Unknown(f"{what}: {paths}")
+
     def note(self, message):
         if message not in self.current.notes:
             self.current.notes.append(message)
